@@ -56,6 +56,9 @@ ViewDoc(d) == IF IsDoc(d)
 JView(j) == IF j.k \in {"ts", "sn", "tg"}
             THEN [k |-> j.k, v |-> j.v, signers |-> SetOf(j.signers), pinv |-> j.pinv]
             ELSE [k |-> j.k]
+\* traces recorded from the repository's own tests with a temporary datastore cannot say what it held after a failed
+\* cycle: the store is then logged as [k |-> "unknown"] and not compared
+StoreKnown(j) == "ts" \in DOMAIN j
 StoreMatches(j) == /\ ViewDoc(store.ts) = JView(j.ts) /\ ViewDoc(store.sn) = JView(j.sn)
                    /\ ViewDoc(store.tg) = JView(j.tg) /\ known = j.known
 
@@ -118,7 +121,7 @@ TEnd == /\ IsEv("end") /\ pc \in {"idle", "loaded"}
         /\ LET e == Rec[l] IN
            /\ res = e.res
            /\ (res = "ok" => VersMatch(e))
-           /\ StoreMatches(e.store)
+           /\ (StoreKnown(e.store) => StoreMatches(e.store))
            /\ PrintT(<<"VERDICT", ToJson(StrictVerdict(e))>>)
 TRead == /\ IsEv("read") /\ pc = "loaded" /\ Rec[l].res = ReadRes
          /\ res' = ReadRes
@@ -240,7 +243,7 @@ ObsVerdict(e) ==
       c14a == ObsC14Applies(e, fr)
       \* MetaMissing counts against recovery only when it comes from the rollback check of the
       \* snapshot (3.3.3), i.e. the served snapshot was not stored
-      snStored == cur.sn.k = "sn" /\ JView(e.store.sn) = ViewDoc(cur.sn)
+      snStored == StoreKnown(e.store) /\ cur.sn.k = "sn" /\ JView(e.store.sn) = ViewDoc(cur.sn)
       c14r == /\ e.res \notin {"Older:timestamp", "Older:snapshot", "Older:targets"}
               /\ (e.res = "MetaMissing" => snStored \/ cur.ts.k # "ts" \/ cur.ts.pin.v = 0)
       c14clean == Len(succ) > 0 /\ shipped.v = succ[Len(succ)].root /\ stale = succ[Len(succ)].stale
@@ -292,7 +295,8 @@ OEnd == /\ IsEv("end")
                fr == IF e.res = "ok" THEN ObsRoot(e.vers.root) ELSE NoDoc
            IN
            /\ res' = e.res
-           /\ store' = JStore(e.store) /\ known' = e.store.known
+           /\ IF StoreKnown(e.store) THEN store' = JStore(e.store) /\ known' = e.store.known
+                                      ELSE UNCHANGED <<store, known>>
            /\ IF e.res = "ok"
               THEN /\ root' = fr
                    /\ succ' = Append(succ, [root |-> e.vers.root, shipped |-> shipped.v, stale |-> stale,
